@@ -10,13 +10,20 @@ from vmon.gen import txgen as G
 PROPERTY = "C13"
 PRELOAD_NETWORK_ORDERS = [["btc", "xtn", "ltc", "bch", "grs", "doge", "dash", "btg"], ["btg", "grs", "bch", "doge", "ltc", "xtn", "btc"]]
 LEVEL = "exploration"
-TECHNIQUE = "integer arithmetic model of the split pool + single-discrepancy source databases + exact rational conversion oracle"
+TECHNIQUE = ("integer arithmetic model of the split pool + caller-activity histories after a build + single-discrepancy source databases "
+             "verified in several transaction states / call histories + exact rational conversion oracle")
 RULE = ("cases: (a) create_tx / distribute_from_split_pool builds with 1..8 spendables (objects, text, dict forms), payables mixing fixed "
         "amounts and 0..6 unspecified outputs, fees 0..sum(inputs); every remainder class R mod k for k<=8 and the boundary R in {k-1,k,k+1} "
-        "are enumerated, the rest is seeded random; distinct by (k, n_in, n_out, R class, R mod k, spendable form); (b) split_with_remainder "
+        "are enumerated, the rest is seeded random; about 40% of the create_tx builds are followed by 1-3 caller activities (edits of the "
+        "caller's own spendables list / dict entries / payables list, a second build from the same spendables (also after a failed build), edits "
+        "of that second transaction, distribute_from_split_pool again) after each of which the first transaction is observed again; list or tuple "
+        "container, non-default lock_time/version; distinct by (k, n_in, n_out, R class, R mod k, spendable form, activities); (b) split_with_remainder "
         "exhaustively for total<=80 x count<=9 and at 21e14-scale totals; (c) validate_unspents against a database of source transactions "
         "with no discrepancy and with exactly one (amount +-1, script byte/length, outputs swapped, wrong tx under the hash, missing tx, index "
-        "out of range) at every input position; (d) the four converters on every amount 0..3000, neighbourhoods of 10^k, 10^8, 21e14 and "
+        "out of range) at every input position, with the spending transaction built by create_tx or by hand (Spendable or plain TxOut unspents), "
+        "left unsigned / inputs filled with scripts and-or witness stacks / really signed (p2pkh, p2wpkh, p2pk sources), a dict or a get-only "
+        "database, and verified once or in a history of 2-3 verifications on the same object (faithful and discrepant records installed in "
+        "turn through set_unspents or attribute edits); (d) the four converters on every amount 0..3000, neighbourhoods of 10^k, 10^8, 21e14 and "
         "random amounts, as Decimal, int and decimal strings in several spellings. Non-trivial: k>=1 or a discrepancy or amount != 0.")
 ASSUMPTIONS = [
     "an output is 'unspecified' when its payable is a bare address or carries amount 0 (create_tx docstring); 'insufficient funds raise an "
@@ -31,9 +38,16 @@ ASSUMPTIONS = [
     "addresses come from network.address.for_p2pkh/for_p2sh/for_p2pkh_wit of the network under test (workload only; the output scripts are "
     "not judged here, that is C08)",
     "decimal strings are plain digit strings with at most 8 (BTC) / 5 (mBTC) fractional digits",
+    "'each input stays paired with the spendable it came from' and the value clauses are statements about the returned transaction for as "
+    "long as it exists: what the caller later does with containers it owns (the spendables list / tuple, dict-form entries, the payables "
+    "list), with another transaction built from the same spendables, or a repeated distribute_from_split_pool must not change it. Edits of "
+    "the Spendable objects themselves and of a list handed to Tx.set_unspents are not judged (those objects are shared by design)",
+    "the verification clause does not depend on the state of the spending transaction (inputs empty, filled in or signed; unspents given as "
+    "Spendable or TxOut; verified before or not) nor on the database being a dict: a get(hash)-only object like pycoin.services.tx_db.TxDb "
+    "is as good; input scripts / witnesses written by the check are arbitrary bytes because validate_unspents is not a signature check",
 ]
 EXPLANATION = ("outputs, unspents, fee()/total_in()/total_out() of every built transaction are compared with a pure integer model written "
-               "from the statement; validate_unspents must return the fee on a faithful database and must not return on any single "
+               "from the statement, straight after construction and again after each later caller activity; validate_unspents must return the fee on a faithful database and must not return on any single "
                "discrepancy; converter results are compared as exact rationals")
 TIMEOUT = {"quick": 600, "thorough": 3 * 3600}
 
@@ -171,11 +185,11 @@ def _payables(addrs, amounts, rng, style=None):
     return out
 
 
-def _judge_outputs(rec, case, got, exp, amounts, in_sum, fee, prefix):
+def _judge_outputs(rec, case, got, exp, amounts, in_sum, fee, prefix, suffix=""):
     """classify a disagreement between built outputs and the model by the statement clause it breaks"""
     k = amounts.count(0)
     if len(got) != len(exp):
-        rec.violation(prefix + ".output_count_changed", case, got, exp)
+        rec.violation(prefix + ".output_count_changed" + suffix, case, got, exp)
         return False
     if got == exp:
         return True
@@ -192,39 +206,234 @@ def _judge_outputs(rec, case, got, exp, amounts, in_sum, fee, prefix):
         mech = ".remainder_not_to_earlier"
     else:
         mech = ".outputs_mismatch"
-    rec.violation(prefix + mech, case, got, exp)
+    rec.violation(prefix + mech + suffix, case, got, exp)
     return False
 
 
-def _check_build(name, net, rng, rec, in_values, amounts, fee, form="object", via="create_tx", tag=None):
-    """one build through create_tx (or Tx + distribute_from_split_pool) against the model"""
+def _observe_built(rec, case, tx, fields, exp, amounts, in_sum, fee, suffix=""):
+    """outputs, total_in/total_out/fee and input/unspent pairing of a built transaction against the model; True when all agree.
+    suffix names the caller activity that preceded the observation ("" = straight after construction)."""
+    k = amounts.count(0)
+    st0, got = observe(lambda: [o.coin_value for o in tx.txs_out])
+    if st0 != "ok":
+        rec.violation("build.outputs_unreadable" + suffix, case, got, exp)
+        return False
+    good = _judge_outputs(rec, case, got, exp, amounts, in_sum, fee, "build", suffix)
+    # fee arithmetic as reported by the transaction
+    rec.ev("Tx.total_in")
+    st1, ti = observe(tx.total_in)
+    rec.ev("Tx.total_out")
+    st2, to = observe(tx.total_out)
+    rec.ev("Tx.fee")
+    st3, fe = observe(tx.fee)
+    if st1 != "ok" or ti != in_sum:
+        rec.violation("tx.total_in.mismatch" + suffix, case, ti, in_sum)
+        good = False
+    if st2 != "ok" or to != sum(got):
+        rec.violation("tx.total_out.mismatch" + suffix, case, to, sum(got))
+        good = False
+    if st3 != "ok" or fe != in_sum - sum(got):
+        rec.violation("tx.fee.not_in_minus_out" + suffix, case, fe, in_sum - sum(got))
+        good = False
+    elif k and fe != fee:
+        rec.violation("tx.fee.not_requested_fee" + suffix, case, fe, fee)
+        good = False
+    # pairing
+    rec.ev("pairing")
+
+    def paired():
+        if len(tx.txs_in) != len(fields):
+            return "input count"
+        if len(tx.unspents) != len(fields):
+            return "unspent count"
+        for i, f in enumerate(fields):
+            ti_, u = tx.txs_in[i], tx.unspents[i]
+            if (bytes(ti_.previous_hash), ti_.previous_index) != (f["tx_hash"], f["tx_out_index"]) or u is None or \
+                    (u.coin_value, bytes(u.script)) != (f["coin_value"], f["script"]) or \
+                    (bytes(getattr(u, "tx_hash", f["tx_hash"])), getattr(u, "tx_out_index", f["tx_out_index"])) != (f["tx_hash"], f["tx_out_index"]):
+                return "mismatch at %d" % i
+        return None
+    st4, why = observe(paired)
+    if st4 != "ok" or why:
+        rec.violation("build.pairing_broken" + suffix, case, "input/unspent %s" % (why if st4 == "ok" else "unreadable"),
+                      "unspents[i] is the spendable of txs_in[i]")
+        good = False
+    return good
+
+
+def _create_and_judge(name, net, rng, rec, case, spendables, fields, amounts, fee, kw=None, suffix=""):
+    """create_tx on the given (caller-owned) container of spendables against the model of `fields`; returns (tx or None, payables)"""
+    addrs = _addresses(name, net)
+    in_values = [f["coin_value"] for f in fields]
+    verdict, exp = model_build(in_values, amounts, fee)
+    payables = _payables(addrs, amounts, rng)
+    rec.ev("create_tx")
+    st, tx = observe(lambda: net.tx_utils.create_tx(spendables, payables, fee, **(kw or {})))
+    if verdict == "error":
+        rec.ev("expected_error")
+        if st == "ok":
+            rec.violation("build.insufficient_funds_not_rejected" + suffix, case, [o.coin_value for o in tx.txs_out], "error")
+        return None, payables
+    rec.ev("expected_tx")
+    if st != "ok":
+        rec.violation("build.rejects_sufficient_funds" + suffix, case, tx, exp)
+        return None, payables
+    if not _observe_built(rec, case, tx, fields, exp, amounts, sum(in_values), fee, suffix):
+        return None, payables           # already reported; nothing built on top of it is judged
+    return tx, payables
+
+
+# what the caller may do after (or between) builds with the things it owns. None of it may reach a transaction that was
+# already returned: create_tx takes "a list of Spendable objects" and returns a finished transaction.
+AFTERMATH = ["list_append", "list_pop", "list_reverse", "list_sort", "list_clear", "list_insert0", "list_replace", "list_del_slice",
+             "entries_edit", "payables_edit", "second_build", "second_build_other", "second_tx_edit", "redistribute"]
+_AFTER_GROUP = {"entries_edit": "spendable_entry_edit", "payables_edit": "payables_edit", "second_build": "second_build",
+                "second_build_other": "second_build", "second_tx_edit": "second_tx_edit", "redistribute": "redistribute"}
+
+
+def _second_params(cur):
+    """payables / fee of a second build, a deterministic function of the caller's current spendables"""
+    total = sum(f["coin_value"] for f in cur)
+    k2 = 1 + (total + len(cur)) % 3
+    fixed2 = [1 + total % 5] if total > 40 and len(cur) % 2 else []
+    left = total - sum(fixed2)
+    rem2 = [k2, k2 + 1, k2 - 1, 2 * k2 + 1, left, left // 2][(total // 7) % 6]
+    fee2 = max(0, left - rem2)
+    return fixed2 + [0] * k2, fee2
+
+
+def _run_aftermath(name, net, rng, rec, case, tx, fields, forms, spendables, payables, amounts, fee, kw, aftermath):
+    """the caller goes on using its own containers / builds again from the same spendables; after every step the transaction
+    returned earlier must still be the transaction of the model"""
+    S = net.tx.Spendable
+    in_sum = sum(f["coin_value"] for f in fields)
+    exp = model_build([f["coin_value"] for f in fields], amounts, fee)[1]
+    cur, cur_forms = [dict(f) for f in fields], list(forms)       # model of the caller's container
+    is_list = isinstance(spendables, list)
+    fresh = [0]
+
+    def new_entry():
+        fresh[0] += 1
+        f = _mk_spendable_fields(rng, [1, 546, 10 ** 8, 12345][fresh[0] % 4], 100 + fresh[0])
+        form = forms[fresh[0] % len(forms)]
+        return f, form, _as_form(S, f, form)
+
+    def permute(order):
+        spendables[:] = [spendables[i] for i in order]
+        cur[:] = [cur[i] for i in order]
+        cur_forms[:] = [cur_forms[i] for i in order]
+
+    for act in aftermath:
+        group = _AFTER_GROUP.get(act, "spendables_list_edit")
+        if act.startswith("list_"):
+            if not is_list:
+                continue
+            if act in ("list_append", "list_insert0", "list_replace"):
+                f, form, e = new_entry()
+                if act == "list_append":
+                    spendables.append(e), cur.append(f), cur_forms.append(form)
+                elif act == "list_insert0" or not cur:
+                    spendables.insert(0, e), cur.insert(0, f), cur_forms.insert(0, form)
+                else:
+                    j = len(cur) // 2
+                    spendables[j], cur[j], cur_forms[j] = e, f, form
+            elif act == "list_pop" and cur:
+                j = len(cur) // 2
+                spendables.pop(j), cur.pop(j), cur_forms.pop(j)
+            elif act == "list_reverse":
+                permute(list(range(len(cur)))[::-1])
+            elif act == "list_sort":
+                order = sorted(range(len(cur)), key=lambda i: (cur[i]["coin_value"], i))
+                permute(order if order != list(range(len(cur))) else order[::-1])
+            elif act == "list_clear":
+                del spendables[:], cur[:], cur_forms[:]
+            elif act == "list_del_slice":
+                h = len(cur) // 2
+                del spendables[h:], cur[h:], cur_forms[h:]
+        elif act == "entries_edit":
+            for i, e in enumerate(spendables):
+                if isinstance(e, dict):
+                    c = cur[i] = dict(cur[i])
+                    c["coin_value"] += 1 + i
+                    c["tx_out_index"] = (c["tx_out_index"] + 1) % 0xffffffff
+                    c["script"] = b"\x51" + c["script"]
+                    e["coin_value"], e["tx_out_index"], e["script_hex"] = c["coin_value"], c["tx_out_index"], c["script"].hex()
+        elif act == "payables_edit":
+            for p in payables:
+                if isinstance(p, list):
+                    p[1] += 7
+            payables.reverse()
+            payables.append(payables[0])
+        elif act in ("second_build", "second_build_other", "second_tx_edit"):
+            if cur and len({(f["tx_hash"], f["tx_out_index"]) for f in cur}) == len(cur):
+                a2, f2 = (amounts, fee) if act != "second_build_other" else _second_params(cur)
+                rec.ev("second_build")
+                tx2, _ = _create_and_judge(name, net, rng, rec, case, spendables, cur, list(a2), f2, kw, ".second_build_same_spendables")
+                if tx2 is not None and act == "second_tx_edit":
+                    def edit():
+                        for o in tx2.txs_out:
+                            o.coin_value += 1
+                        tx2.txs_out.pop()
+                        t0 = tx2.txs_in[0]
+                        t0.previous_index ^= 1
+                        t0.previous_hash = bytes(32)
+                        t0.script = b"\x01\x02"
+                        tx2.txs_in.reverse()
+                        tx2.txs_in.pop()
+                        tx2.unspents.reverse()
+                        tx2.unspents.pop()
+                    observe(edit)
+        elif act == "redistribute":
+            rec.ev("distribute_from_split_pool")
+            observe(net.tx_utils.distribute_from_split_pool, tx, fee)
+        rec.ev("aftermath." + group)
+        if not _observe_built(rec, case, tx, fields, exp, amounts, in_sum, fee, ".after_" + group):
+            return
+
+
+def _check_build(name, net, rng, rec, in_values, amounts, fee, form="object", via="create_tx", tag=None, aftermath=(),
+                 container="list", extra=None):
+    """one build through create_tx (or Tx + distribute_from_split_pool) against the model, then the caller's later activity"""
     Tx = net.tx
     S = Tx.Spendable
-    addrs = _addresses(name, net)
     fields = [_mk_spendable_fields(rng, v, i) for i, v in enumerate(in_values)]
+    aftermath = list(aftermath or ()) if via == "create_tx" else []
     case = {"kind": "build", "net": name, "in_values": list(in_values), "amounts": list(amounts), "fee": fee, "form": form, "via": via}
+    if aftermath:
+        case["aftermath"] = aftermath
+    if via == "create_tx" and container != "list":
+        case["container"] = container
+    if via == "create_tx" and extra:
+        case["extra"] = dict(extra)
     k = amounts.count(0)
     verdict, exp = model_build(in_values, amounts, fee)
     in_sum = sum(in_values)
     rem = in_sum - sum(amounts) - fee
     rclass = "neg" if rem < 0 else "lt_k" if rem < k else "eq_k" if rem == k else "k+1" if rem == k + 1 else "big"
     rec.case(("build", via, form if via == "create_tx" else "", k, len(in_values), len(amounts), rclass, rem % k if k and rem >= 0 else -1,
-              fee == 0, tag), nontrivial=k >= 1)
+              fee == 0, tag, tuple(aftermath), container if via == "create_tx" else "", bool(extra)), nontrivial=k >= 1)
     if via == "create_tx":
-        spendables = [_as_form(S, f, form if form != "mixed" else ("object", "text", "dict")[i % 3]) for i, f in enumerate(fields)]
-        payables = _payables(addrs, amounts, rng)
-        rec.ev("create_tx")
-        st, tx = observe(net.tx_utils.create_tx, spendables, payables, fee)
-    else:
-        def build():
-            t = Tx(1, [G.spendable_to_pycoin(S, f).tx_in() for f in fields], [Tx.TxOut(a, b"\x51") for a in amounts])
-            t.set_unspents([G.spendable_to_pycoin(S, f) for f in fields])
-            zc = net.tx_utils.distribute_from_split_pool(t, fee)
-            if zc != k:
-                rec.violation("split_pool.wrong_zero_count", case, zc, k)
-            return t
-        rec.ev("distribute_from_split_pool")
-        st, tx = observe(build)
+        forms = [form if form != "mixed" else ("object", "text", "dict")[i % 3] for i in range(len(fields))]
+        entries = [_as_form(S, f, fm) for f, fm in zip(fields, forms)]
+        spendables = entries if container == "list" else tuple(entries)
+        tx, payables = _create_and_judge(name, net, rng, rec, case, spendables, fields, amounts, fee, extra)
+        if tx is not None and aftermath:
+            _run_aftermath(name, net, rng, rec, case, tx, fields, forms, spendables, payables, amounts, fee, extra, aftermath)
+        elif verdict == "error" and aftermath:
+            # a query after a failed call: the same container must still build the transaction of the model
+            rec.ev("aftermath.failed_build")
+            _create_and_judge(name, net, rng, rec, case, spendables, fields, [0], 0, extra, ".after_failed_build")
+        return tx
+
+    def build():
+        t = Tx(1, [G.spendable_to_pycoin(S, f).tx_in() for f in fields], [Tx.TxOut(a, b"\x51") for a in amounts])
+        t.set_unspents([G.spendable_to_pycoin(S, f) for f in fields])
+        zc = net.tx_utils.distribute_from_split_pool(t, fee)
+        if zc != k:
+            rec.violation("split_pool.wrong_zero_count", case, zc, k)
+        return t
+    rec.ev("distribute_from_split_pool")
+    st, tx = observe(build)
     if verdict == "error":
         rec.ev("expected_error")
         if st == "ok":
@@ -234,36 +443,7 @@ def _check_build(name, net, rng, rec, in_values, amounts, fee, form="object", vi
     if st != "ok":
         rec.violation("build.rejects_sufficient_funds", case, tx, exp)
         return
-    got = [o.coin_value for o in tx.txs_out]
-    _judge_outputs(rec, case, got, exp, amounts, in_sum, fee, "build")
-    # fee arithmetic as reported by the transaction
-    rec.ev("Tx.total_in")
-    st1, ti = observe(tx.total_in)
-    rec.ev("Tx.total_out")
-    st2, to = observe(tx.total_out)
-    rec.ev("Tx.fee")
-    st3, fe = observe(tx.fee)
-    if st1 != "ok" or ti != in_sum:
-        rec.violation("tx.total_in.mismatch", case, ti, in_sum)
-    if st2 != "ok" or to != sum(got):
-        rec.violation("tx.total_out.mismatch", case, to, sum(got))
-    if st3 != "ok" or fe != in_sum - sum(got):
-        rec.violation("tx.fee.not_in_minus_out", case, fe, in_sum - sum(got))
-    elif k and fe != fee:
-        rec.violation("tx.fee.not_requested_fee", case, fe, fee)
-    # pairing
-    rec.ev("pairing")
-    ok = len(tx.txs_in) == len(fields) and len(tx.unspents) == len(fields)
-    if ok:
-        for i, f in enumerate(fields):
-            ti_, u = tx.txs_in[i], tx.unspents[i]
-            if (bytes(ti_.previous_hash), ti_.previous_index) != (f["tx_hash"], f["tx_out_index"]) or u is None or \
-                    (u.coin_value, bytes(u.script)) != (f["coin_value"], f["script"]) or \
-                    (bytes(getattr(u, "tx_hash", f["tx_hash"])), getattr(u, "tx_out_index", f["tx_out_index"])) != (f["tx_hash"], f["tx_out_index"]):
-                ok = False
-                break
-    if not ok:
-        rec.violation("build.pairing_broken", case, "input/unspent %s" % ("count" if len(tx.txs_in) != len(fields) else "mismatch"), "unspents[i] is the spendable of txs_in[i]")
+    _observe_built(rec, case, tx, fields, exp, amounts, in_sum, fee)
     return tx
 
 
@@ -330,7 +510,9 @@ def run_build_sweep(spec, rec, nets):
                     amounts = [0] + list(fixed) + [0] * (k - 1)
                 name = names[i % len(names)]
                 _check_build(name, nets[name], rng, rec, in_values, amounts, fee, form=("object", "text", "dict", "mixed")[i % 4],
-                             via="create_tx" if i % 5 else "split_pool", tag="sweep")
+                             via="create_tx" if i % 5 else "split_pool", tag="sweep",
+                             aftermath=[AFTERMATH[(i // 4) % len(AFTERMATH)]] + ([AFTERMATH[(i // 56) % len(AFTERMATH)]] if i % 3 == 0 else []),
+                             container="tuple" if i % 11 == 3 else "list", extra={"lock_time": 500000000 + i, "version": 2} if i % 7 == 2 else None)
                 i += 1
     # k = 0: nothing to distribute
     for fee in (0, 5, 10 ** 9):
@@ -368,24 +550,63 @@ def run_split_exhaustive(spec, rec, nets):
 
 DISCREPANCIES = ["amount_plus", "amount_minus", "script_byte", "script_longer", "script_shorter", "swapped_output", "wrong_tx",
                  "missing_tx", "index_out_of_range", "index_far_out_of_range", "amount_and_script"]
+_GROUP = {"amount_plus": "amount", "amount_minus": "amount", "script_byte": "script", "script_longer": "script",
+          "script_shorter": "script", "amount_and_script": "amount_and_script", "swapped_output": "swapped_output",
+          "wrong_tx": "wrong_tx_under_hash", "missing_tx": "missing_tx", "index_out_of_range": "index_out_of_range",
+          "index_far_out_of_range": "index_out_of_range"}
+# the setting a verification happens in. The statement quantifies over none of it: whatever was done to the spending
+# transaction before (inputs filled in by signing, an earlier verification, unspents installed by hand), a differing
+# amount or script must not pass and a faithful record must.
+STATES = ["unsigned", "scripts", "witness", "both", "mixed", "signed"]
+ENTRIES = ["create_tx", "manual_spendable", "manual_txout"]
+PLAIN = {"k": 1, "entry": "create_tx", "state": "unsigned", "dress_at": 0, "db_form": "dict", "edit_via": "set_unspents", "state_seed": 0}
+_KEYS = {}
 
 
-def _source_tx(rng, n_out, tag):
+def _key_material(name, net):
+    """a few keys of the network with the scripts they can sign for (workload for the 'signed' state)"""
+    if name not in _KEYS:
+        from pycoin.encoding.hash import hash160
+        wifs, scripts = [], []
+        for e in (1, 2, 3, 5):
+            key = net.keys.private(secret_exponent=e)
+            wifs.append(key.wif())
+            for f, arg in (("for_p2pkh", hash160(key.sec())), ("for_p2pkh_wit", hash160(key.sec())), ("for_p2pk", key.sec())):
+                st, sc = observe(getattr(net.contract, f), arg)
+                if st == "ok" and isinstance(sc, bytes) and sc:
+                    scripts.append(sc)
+        _KEYS[name] = {"wifs": wifs, "scripts": scripts}
+    return _KEYS[name]
+
+
+def _source_tx(rng, n_out, tag, key_scripts=None):
     """a well-formed source transaction with n_out outputs of value 1..MAXV (sometimes with witness data: the id must ignore it)"""
     d = G.rand_tx(rng, n_in=rng.choice([1, 1, 2]), n_out=n_out, witness=rng.choice(["none", "none", "some", "all"]), p_edge=0.1,
                   max_big=0, distinct_outpoints=True)
     for j, o in enumerate(d["outs"]):
         o["value"] = rng.choice([1, 2, 546, 10 ** 8, MAXV, rng.randrange(1, MAXV + 1), rng.randrange(1, 10 ** 7)])
-        o["script"] = G.rbytes(rng, rng.choice([1, 2, 23, 25, 25, 34, 67])) or b"\x51"
+        o["script"] = rng.choice(key_scripts) if key_scripts else (G.rbytes(rng, rng.choice([1, 2, 23, 25, 25, 34, 67])) or b"\x51")
     d["lock_time"] = tag            # keeps source transactions (and so their hashes) distinct
     return d
 
 
+def _rand_setting(rng, kind, keyed):
+    if kind == "none":
+        history = rng.choice(["G", "G", "GG"])
+    elif kind in ("index_out_of_range", "index_far_out_of_range"):
+        history = "B"               # the spending transaction itself differs between the faithful and the discrepant side
+    else:
+        history = rng.choice(["B", "B", "B", "GB", "BG", "BB", "GBG", "GGB"])
+    return {"k": rng.choice([0, 1, 1, 2]), "entry": rng.choice(["create_tx", "create_tx", "create_tx", "manual_spendable", "manual_txout"]),
+            "state": "signed" if keyed else rng.choice(["unsigned", "unsigned", "scripts", "witness", "witness", "both", "mixed"]),
+            "dress_at": rng.randrange(len(history)), "db_form": rng.choice(["dict", "dict", "getter"]),
+            "edit_via": rng.choice(["set_unspents", "attr"]), "state_seed": rng.getrandbits(24), "history": history}
+
+
 def _check_validate(name, net, rng, rec, n_in, kind, pos):
-    Tx = net.tx
-    S = Tx.Spendable
-    addrs = _addresses(name, net)
-    sources = [_source_tx(rng, rng.choice([1, 2, 3, 5]), tag) for tag in range(n_in)]
+    keyed = rng.random() < 0.25
+    ks = _key_material(name, net)["scripts"] if keyed else None
+    sources = [_source_tx(rng, rng.choice([1, 2, 3, 5]), tag, ks) for tag in range(n_in)]
     hashes = [R.txid_bytes(s) for s in sources]
     picks = [rng.randrange(len(s["outs"])) for s in sources]
     if rng.random() < 0.3 and n_in >= 2 and len(sources[0]["outs"]) >= 2:       # two inputs from the same source transaction
@@ -394,6 +615,7 @@ def _check_validate(name, net, rng, rec, n_in, kind, pos):
     recorded = [{"coin_value": s["outs"][p]["value"], "script": s["outs"][p]["script"], "tx_hash": h, "tx_out_index": p,
                  "block_index_available": 0, "does_seem_spent": 0, "block_index_spent": 0} for s, h, p in zip(sources, hashes, picks)]
     db_src = {h: s for h, s in zip(hashes, sources)}
+    good_recorded, good_db = [dict(g) for g in recorded], dict(db_src)
     f = recorded[pos]
     src = sources[pos]
     if kind == "amount_plus":
@@ -425,7 +647,7 @@ def _check_validate(name, net, rng, rec, n_in, kind, pos):
             f["coin_value"], f["script"] = src["outs"][q]["value"], src["outs"][q]["script"]
     elif kind == "wrong_tx":
         # the database answers the hash with another transaction, and the spendable agrees with that other transaction
-        w = _source_tx(rng, len(src["outs"]) + 1, 1000 + pos)
+        w = _source_tx(rng, len(src["outs"]) + 1, 1000 + pos, ks)
         wo = w["outs"][f["tx_out_index"]]
         if (wo["value"], wo["script"]) == (f["coin_value"], f["script"]):
             wo["value"] += 1
@@ -442,42 +664,157 @@ def _check_validate(name, net, rng, rec, n_in, kind, pos):
             kind = "amount_plus"
         else:
             f["tx_out_index"] = len(src["outs"]) + (0 if kind == "index_out_of_range" else rng.choice([1, 2, 1000, 0xfffffff0]))
-    case = {"kind": "validate", "net": name, "discrepancy": kind, "pos": pos,
-            "recorded": [dict(g, script=g["script"], tx_hash=g["tx_hash"]) for g in recorded],
-            "db": [{"hash": h, "tx": G.pack(s)} for h, s in db_src.items()]}
-    _judge_validate(name, net, rec, case, recorded, db_src, kind, rng)
+    setting = _rand_setting(rng, kind, keyed)
+    case = {"kind": "validate", "net": name, "discrepancy": kind, "pos": pos, "setting": setting,
+            "recorded": [dict(g) for g in recorded], "db": [{"hash": h, "tx": G.pack(s)} for h, s in db_src.items()]}
+    if "G" in setting["history"] and kind != "none":
+        case["good_recorded"] = good_recorded
+        case["good_db"] = [{"hash": h, "tx": G.pack(s)} for h, s in good_db.items()]
+    sides = {"B": (recorded, db_src), "G": (good_recorded, good_db)}
+    if kind == "none":
+        sides["B"] = None
+    _judge_validate(name, net, rec, case, sides, kind, setting)
 
 
-def _judge_validate(name, net, rec, case, recorded, db_src, kind, rng=None):
+class _Getter(object):
+    """a transaction database with the interface of pycoin's own pycoin.services.tx_db.TxDb: get(hash) -> transaction or None,
+    and no item access"""
+
+    def __init__(self, d):
+        self._d = d
+
+    def get(self, key):
+        return self._d.get(key)
+
+    def __getitem__(self, key):
+        raise NotImplementedError
+
+
+def _dress(name, net, tx, setting, upto):
+    """bring the spending transaction into a later stage of its life: inputs filled in as signing leaves them (arbitrary data:
+    validate_unspents is not a signature check), or really signed with the keys of _key_material"""
+    state = setting["state"]
+    if state == "unsigned":
+        return
+    if state == "signed":
+        observe(net.tx_utils.sign_tx, tx, _key_material(name, net)["wifs"])
+        return
+    for i in range(min(upto, len(tx.txs_in))):
+        d = hashlib.sha256(b"c13 dress %d %d" % (setting["state_seed"], i)).digest()
+        mode = state if state != "mixed" else ("none", "scripts", "witness", "both")[d[0] % 4]
+        if mode in ("scripts", "both"):
+            tx.txs_in[i].script = bytes([d[1] % 70 + 1]) + (d * 3)[:d[1] % 70 + 1]
+        if mode in ("witness", "both"):
+            w = [(d * 3)[:d[2] % 72 + 1], d[:1] + d] if d[3] % 5 else [b""]
+            if d[4] & 1:
+                tx.set_witness(i, w)
+            else:
+                tx.txs_in[i].witness = w
+
+
+def _validate_run(name, net, sides, setting):
+    """build the spending transaction for the first step of the history, then for each step install that side's recorded
+    unspents and verify against that side's database. Returns ("setup_failed", exception) or a list of
+    (side, status, value, expected fee) per step."""
     Tx = net.tx
     S = Tx.Spendable
-    addrs = _addresses(name, net)
-    rec.case(("validate", kind, len(recorded), case.get("pos"), tuple(len(s["outs"]) for s in db_src.values())[:4],
-              tuple(R.has_witness(s) for s in db_src.values())[:4]), nontrivial=True)
-    db = {h: G.to_pycoin(Tx, s) for h, s in db_src.items()}
-    in_sum = sum(g["coin_value"] for g in recorded)
-    k = min(in_sum, 1 if rng is None else rng.choice([0, 1, 1, 2]))
+    history = setting["history"]
+
+    def objs(recorded):
+        if setting["entry"] == "manual_txout":
+            return [Tx.TxOut(g["coin_value"], g["script"]) for g in recorded]
+        return [G.spendable_to_pycoin(S, g) for g in recorded]
+    rec0 = sides[history[0]][0]
+    in_sum = sum(g["coin_value"] for g in rec0)
+    k = min(in_sum, setting["k"])
     fee = min(in_sum - k, 1000)
-    amounts = [0] * k if k else [max(1, in_sum - fee)]
-    st, tx = observe(net.tx_utils.create_tx, [G.spendable_to_pycoin(S, g) for g in recorded], _payables(addrs, amounts, None, style="bare"), fee)
+    if setting["entry"] == "create_tx":
+        amounts = [0] * k if k else [max(1, in_sum - fee)]
+        st, tx = observe(net.tx_utils.create_tx, objs(rec0), _payables(_addresses(name, net), amounts, None, style="bare"), fee)
+    else:
+        def manual():
+            values = model_split(in_sum - fee, k) if k else [max(1, in_sum - fee)]
+            t = Tx(1, [Tx.TxIn(g["tx_hash"], g["tx_out_index"]) for g in rec0], [Tx.TxOut(v, b"\x51") for v in values])
+            t.set_unspents(objs(rec0))
+            return t
+        st, tx = observe(manual)
     if st != "ok":
-        rec.violation("validate.setup_failed", case, tx, "transaction")
-        return
-    exp_fee = in_sum - sum(o.coin_value for o in tx.txs_out)
+        return "setup_failed", tx
+    out_sum = sum(o.coin_value for o in tx.txs_out)
+    results = []
+    for j, side in enumerate(history):
+        recorded, db_src = sides[side]
+        if j == setting["dress_at"]:
+            st, e = observe(_dress, name, net, tx, setting, len(recorded))
+            if st != "ok":
+                return "setup_failed", e
+        if j > 0:
+            if setting["edit_via"] == "attr":
+                for u, g in zip(tx.unspents, recorded):
+                    u.coin_value, u.script = g["coin_value"], g["script"]
+            else:
+                tx.set_unspents(objs(recorded))
+        db = {h: G.to_pycoin(Tx, s) for h, s in db_src.items()}
+        if setting["db_form"] == "getter":
+            db = _Getter(db)
+        st, r = observe(tx.validate_unspents, db)
+        results.append((side, st, r, sum(g["coin_value"] for g in recorded) - out_sum))
+    return "ran", results
+
+
+def _first_failure(results, kind):
+    """(step, mechanism, observed, expected) of the first step that breaks the statement, or None"""
+    for j, (side, st, r, exp_fee) in enumerate(results):
+        if side == "G":
+            if st != "ok":
+                return j, "validate_unspents.rejects_matching", r, exp_fee
+            if r != exp_fee:
+                return j, "validate_unspents.wrong_fee", r, exp_fee
+        elif st == "ok":
+            return j, "validate_unspents.accepts_discrepancy." + _GROUP[kind], r, "does not return normally"
+    return None
+
+
+def _judge_validate(name, net, rec, case, sides, kind, setting):
+    history = setting["history"]
+    db0 = sides[history[0]][1]
+    rec.case(("validate", kind, len(sides[history[0]][0]), case.get("pos"), tuple(len(s["outs"]) for s in db0.values())[:4],
+              tuple(R.has_witness(s) for s in db0.values())[:4], setting["entry"], setting["state"], history, setting["db_form"]),
+             nontrivial=True)
     rec.ev("Tx.validate_unspents")
     rec.ev("validate_unspents." + kind)
-    st, r = observe(tx.validate_unspents, db)
-    if kind == "none":
-        if st != "ok":
-            rec.violation("validate_unspents.rejects_matching", case, r, exp_fee)
-        elif r != exp_fee:
-            rec.violation("validate_unspents.wrong_fee", case, r, exp_fee)
-    elif st == "ok":
-        group = {"amount_plus": "amount", "amount_minus": "amount", "script_byte": "script", "script_longer": "script",
-                 "script_shorter": "script", "amount_and_script": "amount_and_script", "swapped_output": "swapped_output",
-                 "wrong_tx": "wrong_tx_under_hash", "missing_tx": "missing_tx", "index_out_of_range": "index_out_of_range",
-                 "index_far_out_of_range": "index_out_of_range"}[kind]
-        rec.violation("validate_unspents.accepts_discrepancy." + group, case, r, "does not return normally")
+    rec.ev("validate_state." + setting["state"])
+    rec.ev("validate_entry." + setting["entry"])
+    rec.ev("validate_history." + ("single" if len(history) == 1 else "repeated"))
+    status, results = _validate_run(name, net, sides, setting)
+    if status != "ran":
+        rec.violation("validate.setup_failed", case, results, "transaction")
+        return
+    bad = _first_failure(results, kind)
+    if bad is None:
+        return
+    j, mech, observed, expected = bad
+    # which part of the setting does the failure need? (decided by re-running, so the key names a cause, not a coincidence)
+    side = history[j]
+
+    def fails(**over):
+        s2 = dict(PLAIN, k=setting["k"], history=side)
+        s2.update(over)
+        st2, res2 = _validate_run(name, net, sides, s2)
+        b2 = _first_failure(res2, kind) if st2 == "ran" else None
+        return b2 is not None and b2[1] == mech
+    if not fails():
+        if setting["state"] != "unsigned" and fails(state=setting["state"], state_seed=setting["state_seed"]):
+            mech += ".when_inputs_filled_in" if setting["state"] != "signed" else ".when_signed"
+        elif setting["entry"] != "create_tx" and fails(entry=setting["entry"]):
+            mech += ".with_" + setting["entry"] + "_unspents"
+        elif setting["db_form"] != "dict" and fails(db_form=setting["db_form"]):
+            mech += ".with_get_only_database"
+        elif j > 0 and fails(history=history[:j + 1], dress_at=0, edit_via=setting["edit_via"]):
+            mech += ".after_earlier_verification"
+        else:
+            mech += ".in_combined_setting"
+    rec.violation(mech, case, observed, expected)
 
 
 def run_validate(spec, rec, nets):
@@ -490,6 +827,7 @@ def run_validate(spec, rec, nets):
         pos = rng.randrange(n_in) if i % 3 else (i // 3) % n_in
         _check_validate(name, nets[name], rng, rec, n_in, kind, pos)
     rec.require("Tx.validate_unspents", "validate_unspents.none", *["validate_unspents." + k for k in DISCREPANCIES if k != "amount_minus"])
+    rec.require("validate_history.repeated", *["validate_state." + s for s in STATES] + ["validate_entry." + e for e in ENTRIES])
 
 
 # ---------------------------------------------------------------------------------------------
@@ -590,18 +928,22 @@ def run_shard(spec, rec):
         rec.require("split_with_remainder")
         return run_split_exhaustive(spec, rec, nets)
     if kind == "build_sweep":
-        rec.require("create_tx", "distribute_from_split_pool", "expected_error", "expected_tx", "Tx.fee", "Tx.total_in", "Tx.total_out", "pairing")
+        rec.require("create_tx", "distribute_from_split_pool", "expected_error", "expected_tx", "Tx.fee", "Tx.total_in", "Tx.total_out", "pairing",
+                    "second_build", "aftermath.failed_build", *["aftermath." + g for g in sorted(set(_AFTER_GROUP.values()) | {"spendables_list_edit"})])
         return run_build_sweep(spec, rec, nets)
     if kind == "validate":
         return run_validate(spec, rec, nets)
-    rec.require("create_tx", "expected_error", "expected_tx")
+    rec.require("create_tx", "expected_error", "expected_tx", "aftermath.spendables_list_edit", "aftermath.second_build")
     rng = shard_rng(spec["seed"], PROPERTY, spec["tier"], spec["shard"])
     names = list(nets)
     for i in range(spec["n"]):
         name = names[i % len(names)]
         in_values, amounts, fee = _rand_build_params(rng)
+        aftermath = [rng.choice(AFTERMATH) for _ in range(rng.choice([1, 1, 2, 3]))] if rng.random() < 0.4 else []
         _check_build(name, nets[name], rng, rec, in_values, amounts, fee, form=rng.choice(["object", "object", "text", "dict", "mixed"]),
-                     via="create_tx" if rng.random() < 0.85 else "split_pool")
+                     via="create_tx" if rng.random() < 0.85 else "split_pool", aftermath=aftermath,
+                     container="tuple" if rng.random() < 0.08 else "list",
+                     extra={"lock_time": rng.choice([1, 499999999, 500000000, 0xffffffff]), "version": rng.choice([1, 2, 3])} if rng.random() < 0.2 else None)
         if i == 5:
             rec.sample({"op": "create_tx", "net": name, "in_values": in_values, "amounts(0=unspecified)": amounts, "fee": fee,
                         "model": model_build(in_values, amounts, fee)})
@@ -627,12 +969,23 @@ def replay_case(case, rec):
         rng = shard_rng(0, PROPERTY, "replay", 0)
         for form in ([case.get("form", "object")] if case.get("via") == "split_pool" else ["object", "text", "dict", "mixed"]):
             _check_build(name, nets[name], rng, rec, [int(v) for v in case["in_values"]], [int(v) for v in case["amounts"]],
-                         int(case["fee"]), form=form, via=case.get("via", "create_tx"))
+                         int(case["fee"]), form=form, via=case.get("via", "create_tx"), aftermath=case.get("aftermath") or (),
+                         container=case.get("container", "list"),
+                         extra={a: int(b) for a, b in case["extra"].items()} if case.get("extra") else None)
         return
     if kind == "validate":
-        recorded = [dict(g, coin_value=int(g["coin_value"]), tx_out_index=int(g["tx_out_index"]), script=G._unpack_bytes(g["script"]),
-                         tx_hash=G._unpack_bytes(g["tx_hash"])) for g in case["recorded"]]
-        db_src = {G._unpack_bytes(e["hash"]): G.unpack(e["tx"]) for e in case["db"]}
-        _judge_validate(name, nets[name], rec, case, recorded, db_src, case["discrepancy"])
+        def recs(lst):
+            return [dict(g, coin_value=int(g["coin_value"]), tx_out_index=int(g["tx_out_index"]), script=G._unpack_bytes(g["script"]),
+                         tx_hash=G._unpack_bytes(g["tx_hash"])) for g in lst]
+
+        def dbs(lst):
+            return {G._unpack_bytes(e["hash"]): G.unpack(e["tx"]) for e in lst}
+        disc = case["discrepancy"]
+        setting = dict(PLAIN, history="G" if disc == "none" else "B")
+        setting.update(case.get("setting") or {})
+        side = (recs(case["recorded"]), dbs(case["db"]))
+        sides = {"G": side, "B": None} if disc == "none" else \
+            {"B": side, "G": (recs(case["good_recorded"]), dbs(case["good_db"])) if "good_recorded" in case else None}
+        _judge_validate(name, nets[name], rec, case, sides, disc, setting)
         return
     raise ValueError("unknown case kind %r" % kind)
